@@ -10,6 +10,11 @@ Three parts, every generated case goes through all of them:
     line, column) of emmet.expand is compared with the extracted Coq model (coq/model/FormatIndent.v on top of
     the markup pipeline model).
   THEOREMS: coq/props/C15.v.
+  LAYERS (stream C15layers): the same oracle with the indent string given through the layers of a configuration (call
+    options, global entry of the type `markup`, global entry of the syntax), expand(abbr, config, global_config) and
+    expand(abbr, Config(config, global_config)); the precedence is restated in this file (effective_config).
+  REPLAYS: a reported input is re-run in a fresh process; when it fails only after earlier calls of the stream, those
+    calls are stored with it (settle_replays) and replay() performs them first.
 """
 import json
 import os
@@ -420,11 +425,13 @@ def gen(ctx):
     g.load_inline()
     rng = ctx.rng
     cases = []
+    del POOL[:]
 
     def add(stmt, syntax, indent, bucket):
         abbr = g.render(stmt)
         tree = g.unroll(g.denote_stmt(stmt))
         lines = expected_lines(tree, syntax, indent)
+        POOL.append((abbr, tree, bucket))
         cases.append((abbr, cfg_of(syntax, indent), {'lines': lines, 'tree': True, 'events': denoted_events(tree)}))
         ctx.cover('gen:' + bucket)
         ctx.cover('syntax:' + syntax)
@@ -513,6 +520,222 @@ def gen(ctx):
     return cases
 
 
+# ---------------------------------------------------------------- configurations given in layers
+# "with any indent string" -- the indent string can reach the writer from three places: the options of the
+# configuration passed with the call, and the two entries of the global configuration (third argument of
+# emmet.expand / second of emmet.Config) that apply to the call: the entry of the syntax TYPE (`markup`) and the entry
+# of the SYNTAX itself (`haml` / `pug` / `slim`).  Documented precedence (Emmet `resolveConfig` / `mergedData`:
+# `{...defaultConfig[key], ...typeDefaults[key], ...syntaxDefaults[key], ...globals[type][key], ...globals[syntax][key]}`,
+# then the user's own section on top): built-in default < global type entry < global syntax entry < the call's own
+# options.  The documented built-in default of `output.indent` is one tab.  Entries of OTHER syntaxes and types never
+# apply.  All of this is restated here, nothing is read from emmet/config.py.
+POOL = []
+LAYERS_ON = True
+DEFAULT_INDENT = '\t'
+LAYER_INDENTS = INDENTS + ['']
+LAYER_NAMES = ('user', 'syntax', 'type')
+SECTIONS = ('variables', 'snippets', 'options')
+# what a layer that does NOT set the indent string may look like
+ABSENT_FORMS = ['missing', 'missing', 'empty-entry', 'options-without-indent', 'other-sections-only', 'empty-options']
+FOREIGN_KEYS = ['html', 'xml', 'stylesheet', 'css', 'jsx', 'xsl', 'scss', 'HAML', 'Markup', 'indent']
+
+
+def layer_entry(form, indent):
+    """one entry of the global configuration (or the user configuration's own sections)"""
+    if form == 'sets-indent':
+        return {'options': {'output.indent': indent}}
+    if form == 'sets-indent-among-others':
+        return {'variables': {'lang': 'de'}, 'options': {'output.selfClosingStyle': 'xhtml', 'output.indent': indent}}
+    if form == 'empty-entry':
+        return {}
+    if form == 'options-without-indent':
+        return {'options': {'output.selfClosingStyle': 'xhtml'}}
+    if form == 'other-sections-only':
+        return {'variables': {'lang': 'de'}, 'snippets': {'zzq': 'p'}}
+    if form == 'empty-options':
+        return {'options': {}}
+    return None     # missing
+
+
+def effective_config(user, glob):
+    """The flat configuration a layered one stands for, by the documented precedence (see above)."""
+    syntax = user['syntax']
+    flat = {'syntax': syntax}
+    for sec in SECTIONS:
+        d = {}
+        for src in (glob.get('markup') or {}, glob.get(syntax) or {}, user):
+            d.update(src.get(sec) or {})
+        if d:
+            flat[sec] = d
+    flat.setdefault('options', {}).setdefault('output.indent', DEFAULT_INDENT)
+    return flat
+
+
+def impl_expand_layers(abbr, user, glob, via):
+    import copy
+    from emmet import expand, Config
+    from common import time_limit, Hang
+    from markup_util import classify_exc, CALL_LIMIT_S
+    try:
+        with time_limit(CALL_LIMIT_S):
+            if via == 'config-object':
+                return ('ok', expand(abbr, Config(copy.deepcopy(user), copy.deepcopy(glob))))
+            return ('ok', expand(abbr, copy.deepcopy(user), copy.deepcopy(glob)))
+    except Hang:
+        return ('hang', CALL_LIMIT_S)
+    except Exception as e:  # noqa
+        return classify_exc(e)
+
+
+def make_layers(rng, syntax, mask, values, foreign=True):
+    """mask: which of (user, syntax entry, type entry) set output.indent; values: their indent strings.
+    Returns (user_config, global_config)."""
+    user = {'syntax': syntax}
+    if rng.random() < 0.3:
+        user['type'] = 'markup'
+    glob = {}
+    for on, v, where in zip(mask, values, LAYER_NAMES):
+        form = rng.choice(['sets-indent', 'sets-indent', 'sets-indent-among-others']) if on else rng.choice(ABSENT_FORMS)
+        e = layer_entry(form, v)
+        if e is None:
+            continue
+        if where == 'user':
+            user.update(e)
+        else:
+            glob[syntax if where == 'syntax' else 'markup'] = e
+    if foreign:
+        # entries that do not apply to this call: other syntaxes (the other two indent syntaxes among them), the
+        # stylesheet type, keys differing in letter case
+        others = [s for s in SYNTAXES if s != syntax] + FOREIGN_KEYS
+        for k in rng.sample(others, rng.choice([0, 1, 2, 3])):
+            glob[k] = {'options': {'output.indent': rng.choice(LAYER_INDENTS + ['@@'])}}
+    return user, glob
+
+
+def gen_layers(ctx):
+    rng = ctx.rng
+    out = []
+    masks = [(a, b, c) for a in (False, True) for b in (False, True) for c in (False, True)]
+
+    def add(abbr, tree, syntax, mask, values, via, foreign, bucket):
+        user, glob = make_layers(rng, syntax, mask, values, foreign)
+        flat = effective_config(user, glob)
+        indent = flat['options']['output.indent']
+        lines = expected_lines(tree, syntax, indent)
+        meta = {'lines': lines, 'tree': True}
+        out.append((abbr, user, glob, via, flat, meta))
+        on = [n for n, m in zip(LAYER_NAMES, mask) if m]
+        ctx.cover('layers:gen:' + bucket)
+        ctx.cover('layers:indent-set-in:' + ('+'.join(on) if on else 'nowhere(built-in default)'))
+        ctx.cover('layers:indent-taken-from:' + (on[0] if on else 'built-in default'))
+        ctx.cover('layers:call-form:' + via)
+        ctx.cover('layers:effective-indent:%r' % indent)
+        if len([k for k in glob if k not in ('markup', syntax)]):
+            ctx.cover('layers:with-entries-of-other-syntaxes')
+        if len(lines) >= 2 and (mask[1] or mask[2]):
+            ctx.nontrivial((abbr, canon_cfg(user), canon_cfg(glob), via))
+
+    # fixed trees (nesting, climbing, a group, multi-line text, a self-closing leaf): every presence mask x every
+    # ORDERED pair/triple of distinct indent strings from a small set x syntax x call form
+    def E(name, **kw):
+        return g.El(name=name, **kw)
+    fixed = [
+        [(E('ul'), '>'), (E('li', repeat=2), '>'), (E('em'), '>'), (E('p'), '^^'), (E('section'), '>'), (E('div', classes=['k']), '')],
+        [(E('section'), '>'), (E('p', text='one\ntwo'), '>'), (E('em'), '^'), (g.Group([(E('ul'), '>'), (E('li'), '')], repeat=2), '+'),
+         (E('custom', self_close=True), '')],
+    ]
+    small = ['\t', '  ', '   ', '']
+    k = 0
+    for st in fixed:
+        abbr = g.render(st)
+        tree = g.unroll(g.denote_stmt(st))
+        for syntax in SYNTAXES:
+            for mask in masks:
+                for a in small:
+                    for b in small:
+                        for c in small:
+                            vals = (a, b, c)
+                            used = [v for v, m in zip(vals, mask) if m]
+                            if len(set(used)) != len(used):
+                                continue
+                            # values of layers that do not set the indent are not used: one representative
+                            if any(v != small[0] for v, m in zip(vals, mask) if not m):
+                                continue
+                            k += 1
+                            add(abbr, tree, syntax, mask, vals, 'config-object' if k % 4 == 0 else 'three-arguments', k % 3 == 0, 'fixed-trees-all-masks')
+    # the generated abbreviations of the main stream under random layerings
+    pool = [p for p in POOL if p[1]]
+    n = 1200 if ctx.tier == 'quick' else 20000
+    for _ in range(n):
+        abbr, tree, bucket = rng.choice(pool)
+        # two thirds without the call's own options setting it (then the global entries decide)
+        mask = rng.choice([m for m in masks if not m[0]] if rng.random() < 0.66 else [m for m in masks if m[0]])
+        if rng.random() < 0.85:
+            vals = tuple(rng.sample(LAYER_INDENTS, 3))
+        else:
+            vals = tuple(rng.choice(LAYER_INDENTS) for _ in range(3))      # layers may agree
+        add(abbr, tree, rng.choice(SYNTAXES), mask, vals, 'config-object' if rng.random() < 0.25 else 'three-arguments', True, 'generated-trees-random-layers')
+    return out
+
+
+def layers_key(abbr, user, glob, via):
+    return 'C15layers:%s|%s|%s|%s' % (abbr, canon_cfg(user), canon_cfg(glob), via)
+
+
+def layers_stage(ctx, model):
+    """Oracle on every case; the model (which takes one flat configuration) is run on the flat configuration the
+    layered one stands for and its text compared with the implementation's output under the layered one."""
+    lcases = gen_layers(ctx)
+    wires, idx, impl = [], [], []
+    for k, (abbr, user, glob, via, flat, meta) in enumerate(lcases):
+        r = impl_expand_layers(abbr, user, glob, via)
+        impl.append(r)
+        ctx.count_eval()
+        ctx.cover('C15layers:%s' % (r[0] if r[0] != 'err' else 'err%d' % r[1]))
+        bad = oracle(abbr, flat, meta, r)
+        if bad:
+            bad = 'indent string in force %r (layers: %s): %s' % (flat['options']['output.indent'], layers_text(user, glob), bad)
+            ctx.property_failure(layers_key(abbr, user, glob, via),
+                                 'C15layers expand(%r, %s, %s) [%s]: %s' % (abbr, canon_cfg(user), canon_cfg(glob), via, bad),
+                                 {'component': 'C15layers', 'abbr': abbr, 'config': user, 'global': glob, 'via': via,
+                                  'meta': meta, 'impl': repr(r)[:500], 'why': bad})
+        if model is not None and not mentions_lorem(abbr, flat):
+            try:
+                wires.append([2] + enc_config(flat) + enc_str(abbr))
+                idx.append(k)
+            except NotModelled:
+                ctx.cover('C15layers:not-modelled')
+    dis = 0
+    if wires:
+        from markup_util import decode_expand
+        for k, w in zip(idx, model.run(wires)):
+            mo = decode_expand(w)
+            if impl[k][0] == 'recursion':
+                continue
+            if mo != impl[k]:
+                dis += 1
+                if dis <= 5:
+                    abbr, user, glob, via, flat, meta = lcases[k]
+                    ctx.say('DISAGREE C15layers %r user=%s global=%s [%s]\n  impl  %r\n  model(flat) %r' % (
+                        abbr, canon_cfg(user), canon_cfg(glob), via, str(impl[k])[:400], str(mo)[:400]))
+                    ctx.broken.append({'kind': 'correspondence', 'file': 'markup-C15layers', 'input': abbr, 'config': canon_cfg(user),
+                                       'global': canon_cfg(glob), 'impl': repr(impl[k])[:300], 'model': repr(mo)[:300]})
+    c = ctx.cov['correspondence'].setdefault('markup_C15layers_model_on_flattened_config', {'cases': 0, 'disagreements': 0})
+    c['cases'] += len(wires)
+    c['disagreements'] += dis
+    return lcases
+
+
+def layers_text(user, glob):
+    syntax = user['syntax']
+    parts = []
+    for nm, src in (('call options', user), ('global[%r]' % syntax, glob.get(syntax)), ("global['markup']", glob.get('markup'))):
+        o = (src or {}).get('options') or {}
+        if 'output.indent' in o:
+            parts.append('%s=%r' % (nm, o['output.indent']))
+    return ', '.join(parts) or 'none sets it'
+
+
 # model/implementation correspondence outside the oracle's domain: text-only nodes, snippets, numbering, whitespace in
 # class names, fields, and every output option the indent formatter reads
 FRAGS = ['div', 'p', 'ul', 'li', 'span', 'a', 'em', 'img', 'br', 'input', 'x', 'h$', '>', '>', '+', '+', '^', '(', ')', '*2', '*3',
@@ -548,7 +771,17 @@ RULE = ('abbreviations generated as an AST (elements with ids, classes, attribut
         'Oracle: output lines = lines denoted by the AST (indent^depth ++ head ++ value; multi-line text one line per text line one '
         'level deeper with the syntax marks); tree read off the indentation = tree of the HTML output. Non-trivial = at least two '
         'lines; distinct by (abbreviation, syntax, indent). A second stream (text-only nodes, snippets, numbering, fields, all '
-        'output options) is compared model vs implementation only.')
+        'output options) is compared model vs implementation only. '
+        'Layered configurations (stream C15layers): the indent string given in the call\'s own options, in the global '
+        'configuration\'s entry of the syntax type (markup), in its entry of the syntax (haml/pug/slim), in any subset of the three '
+        '(all 8 presence masks x all ordered choices of distinct strings from {tab, 2, 3 spaces, empty} on two fixed trees; random '
+        'masks and 9 indent strings incl. the empty one on the generated abbreviations), layers that do not set it being missing / '
+        'empty / holding other options or sections only, plus entries of syntaxes and types that do not apply; called as '
+        'expand(abbr, config, global_config) and as expand(abbr, Config(config, global_config)). Oracle: the same denoted lines and '
+        'tree comparison with the indent string in force by the documented precedence (built-in tab < global type entry < global '
+        'syntax entry < call options), restated in the harness. The Coq model takes one flat configuration: for this stream it is '
+        'run on the flat configuration the layered one stands for (computed by the harness) and compared with the '
+        'implementation\'s output under the layered one; the layer merge itself is not modelled here.')
 
 
 def spec_stage(ctx, spec, label, cases, impl):
@@ -629,6 +862,93 @@ def attach_meta(ctx, cases):
                 rp['meta'] = m
 
 
+# ---------------------------------------------------------------- replays that depend on earlier calls
+# A failure found in the middle of a stream may depend on what earlier calls of the same process left behind (module
+# level caches, shared default arguments).  A replay file must fail when re-run in a FRESH process: every concrete
+# violation that is going to be reported is re-run that way (`./check C15 --replay`); when the input alone holds there,
+# the calls that preceded it in the stream are recorded with it (`after`: the shortest tried suffix of the history
+# that makes it fail again) and replay() performs them first.  Costs nothing when there is no violation.
+HISTORY_TRIES = (1, 4, 16, 64, 400)
+
+
+def call_of(case):
+    if len(case) == 3:
+        return {'abbr': case[0], 'config': case[1], 'meta': case[2]}
+    abbr, user, glob, via, flat, meta = case
+    return {'abbr': abbr, 'config': user, 'global': glob, 'via': via, 'meta': meta}
+
+
+def judge_call(c):
+    """(result, why-the-property-fails or None) of one recorded call"""
+    meta = c.get('meta') or {'tree': True}
+    if 'global' in c:
+        r = impl_expand_layers(c['abbr'], c['config'], c['global'], c.get('via', 'three-arguments'))
+        return r, oracle(c['abbr'], effective_config(c['config'], c['global']), meta, r)
+    r = impl_expand(c['abbr'], c['config'])
+    return r, oracle(c['abbr'], c['config'], meta, r)
+
+
+def fresh_process_replay(rp):
+    import subprocess
+    import sys
+    import tempfile
+    with tempfile.NamedTemporaryFile('w', suffix='.json', delete=False) as f:
+        json.dump({'property': 'C15', 'replay': rp}, f, default=str)
+        path = f.name
+    try:
+        p = subprocess.run([sys.executable, os.path.join(VERIF, 'check'), 'C15', '--replay', path], cwd=VERIF,
+                           stdout=subprocess.DEVNULL, stderr=subprocess.DEVNULL, timeout=300)
+        return p.returncode
+    except Exception:  # noqa
+        return None
+    finally:
+        os.unlink(path)
+
+
+def settle_replays(ctx, streams):
+    conc = [v for v in ctx.violations if not v['no_input'] and (v.get('replay') or {}).get('component') in streams]
+    conc.sort(key=lambda v: len(json.dumps(v['replay'], default=str)))
+    first, seen = [], set()
+    for v in conc:
+        if v['key'] not in seen and len(first) < 10:
+            seen.add(v['key'])
+            first.append(v)
+    changed = False
+    for v in first:
+        rp = v['replay']
+        if fresh_process_replay(rp) != 0:
+            continue            # fails on its own (or could not be re-run): nothing to add
+        stream = streams[rp['component']]
+        pos = None
+        for k, case in enumerate(stream):
+            c = call_of(case)
+            if c['abbr'] == rp['abbr'] and canon_cfg(c['config']) == canon_cfg(rp['config']) and \
+                    canon_cfg(c.get('global')) == canon_cfg(rp.get('global')) and c.get('via') == rp.get('via'):
+                pos = k
+                break
+        if pos is None:
+            continue
+        for n in HISTORY_TRIES:
+            hist = [call_of(c) for c in stream[max(0, pos - n):pos]]
+            if fresh_process_replay(dict(rp, after=hist)) == 1:
+                rp['after'] = hist
+                changed = True
+                v['what'] += ' [holds on this input in a fresh process; fails after the %d call(s) that preceded it in the stream, recorded in the replay]' % len(hist)
+                ctx.cover('replay-needs-earlier-calls')
+                break
+            if n >= pos:
+                break
+        if 'after' not in rp:
+            v['what'] += ' [not reproduced in a fresh process, not even after the preceding calls of the stream]'
+    if changed:
+        # the report lists the smallest replays first and a recorded history makes a replay longer: keep the ten that
+        # were re-run in a fresh process, say how many other failing inputs there were
+        rest = [v for v in conc if v not in first]
+        if rest:
+            ctx.say('C15: %d further failing inputs are not listed (the listed ones were re-run in a fresh process)' % len(rest))
+            ctx.violations[:] = [v for v in ctx.violations if v not in rest]
+
+
 def run(ctx):
     ok = ctx.build(['props/C15.vo', 'run/MarkupRun.vo', 'run/IndentRun.vo'])
     if ok:
@@ -650,6 +970,9 @@ def run(ctx):
     run_cases(ctx, model, hsub, 'C15html', None, mode='events')
     check_chunks(ctx, hsub)
     attach_meta(ctx, cases)
+    lcases = layers_stage(ctx, model) if LAYERS_ON else []
+    if ctx.violations:
+        settle_replays(ctx, {'C15': cases, 'C15layers': lcases})
     tie = gen_tie(ctx)
     timpl = run_cases(ctx, model, tie, 'C15tie', None)
     if spec is not None:
@@ -668,6 +991,19 @@ def replay(ctx, obj):
     if 'abbr' not in rp:
         print('replay names a broken obligation, no input: %s' % str(rp)[:300])
         return 1
+    for c in rp.get('after') or []:
+        judge_call(c)           # the earlier calls of the same process this failure depends on
+    if rp.get('after'):
+        print('after %d earlier call(s) in this process (first %r, last %r):' % (len(rp['after']), rp['after'][0]['abbr'], rp['after'][-1]['abbr']))
+    if 'global' in rp:
+        via = rp.get('via', 'three-arguments')
+        r = impl_expand_layers(rp['abbr'], rp['config'], rp['global'], via)
+        flat = effective_config(rp['config'], rp['global'])
+        bad = oracle(rp['abbr'], flat, rp.get('meta') or {'tree': True}, r)
+        print('%s: expand(%r, %r, %r) -> %r' % (via, rp['abbr'], rp['config'], rp['global'], r))
+        print('indent string in force: %r (%s)' % (flat['options']['output.indent'], layers_text(rp['config'], rp['global'])))
+        print('property %s' % ('FAILS: ' + bad if bad else 'holds on this input'))
+        return 1 if bad else 0
     r = impl_expand(rp['abbr'], rp['config'])
     meta = rp.get('meta') or {'tree': True}
     bad = oracle(rp['abbr'], rp['config'], meta, r)
